@@ -72,7 +72,7 @@ func (c *Constraint) Match(version string) bool {
 	if err != nil {
 		return false
 	}
-	return c.match(v)
+	return c.MatchVersion(v)
 }
 
 // MatchVersion is like Match but it takes a *Version.
